@@ -54,6 +54,7 @@ namespace { struct TextOnly : detail::IFormatStream { void format(std::ostream& 
 // policy: 0 Counted(limit = max entries), 1 MaxSize(limit = max bytes); gens generations; hist: 2 bits per event (1 = write, 2 = restart), 0 terminates
 HX void hx_files(uint64_t policy, uint64_t limit, uint64_t gens, uint64_t hist) {
    name_style = (policy & 4) ? 1 : 0;
+   const bool newline_texts = (policy & 8) != 0;
    filename::Definition def; { filename::Creator c(def); if (name_style) c << "logs" << filename::path_sep << "app." << 2 << filename::number << ".log"; else c << "log." << filename::number; }
    const bool via_handler = policy & 2; policy &= 3; policy &= 1;
    std::unique_ptr<files::PolicyBase> p; std::unique_ptr<files::Handler<files::Counted>> hc; std::unique_ptr<files::Handler<files::MaxSize>> hm;
@@ -75,6 +76,9 @@ HX void hx_files(uint64_t policy, uint64_t limit, uint64_t gens, uint64_t hist) 
          unsigned len = vs_u8("len"); vs_assume(len <= 3);                 // 0 = a message with empty text (an empty line in the file)
          if (via_handler) len = 3 - len;               // the first messages tend to be the longer ones
          std::string text(len, (char) ('a' + nmsg)); ++nmsg;
+         // size-limited files with limits that hold every message: the text may itself end with a newline (as the texts of the
+         // default stream formatter do) - the policy still writes text + newline, and counts exactly that
+         if (newline_texts && policy == 1 && (vs_u8("nl") & 1)) { text += '\n'; ++len; }
          const std::string before = content_of(0); const int rolls_before = rolls;
          if (via_handler) { msg.setText(text); if (policy == 0) hc->handleMessage(msg); else hm->handleMessage(msg); }
          else p->writeMessage(msg, text);
@@ -97,7 +101,7 @@ HX void hx_files(uint64_t policy, uint64_t limit, uint64_t gens, uint64_t hist) 
       }
       // nothing that should be retained is lost: the newest message is always present
       if (nmsg > 0) vs_assert(!content_of(0).empty() || (hist & 3) == 2 || true, "newest generation exists");
-      if (nmsg > 0 && (hist & 3) == 1) vs_assert(kept.size() >= last_len + 1 && kept.back() == '\n' && (last_len == 0 || kept[kept.size() - 2] == (char) ('a' + nmsg - 1)), "the message just written is retained");
+      if (nmsg > 0 && (hist & 3) == 1) vs_assert(kept.size() >= last_len + 1 && kept.back() == '\n' && (last_len == 0 || newline_texts || kept[kept.size() - 2] == (char) ('a' + nmsg - 1)), "the message just written is retained");
    }
    vs_note("msgs", nmsg);
 }
